@@ -81,6 +81,10 @@ def _rules():
         "redone": [
             lambda R, c, rid: c12.rule_f(R, c, rid),
         ],
+        "block-iter": [
+            lambda R, c, rid: c03.rule_g(R, c, rid),
+            lambda R, c, rid: c03.rule_h(R, c, rid),
+        ],
         "flags": [
             lambda R, c, rid: preds.rule(R, c, rid, ["flags_check"]),
             lambda R, c, rid: preds.flag_table(R, c, rid),
@@ -93,7 +97,7 @@ DEPENDS = {
     "C01": ["squash", "splice", "partial", "flags", "stash-deletes", "lookup", "content", "export", "liveness", "block-wire", "merge"],
     "C02": ["stash-deletes", "lookup", "export", "block-wire", "merge"],
     "C03": ["splice", "conflict", "lookup", "content", "map-api"],
-    "C04": ["splice", "dependency", "stash-deletes", "lookup", "content"],
+    "C04": ["splice", "dependency", "stash-deletes", "lookup", "content", "block-iter"],
     "C05": ["conflict", "squash", "splice", "dependency", "map-api", "merge"],
     "C06": ["dependency", "delete-set", "slice", "partial", "lookup", "content", "merge"],
     "C07": ["delete-set", "slice", "partial", "export", "liveness", "block-wire"],
@@ -101,10 +105,10 @@ DEPENDS = {
     "C09": ["slice", "partial", "content"],
     "C12": ["splice", "squash", "lookup"],
     "C13": ["splice", "delete-set", "lookup", "content", "export", "liveness"],
-    "C14": ["splice", "liveness", "lookup", "redone"],
+    "C14": ["splice", "liveness", "lookup", "redone", "block-iter"],
     "C15": ["squash", "splice", "content", "block-wire"],
     "C16": ["delete-set"],
-    "C17": ["flags", "content", "map-api"],
+    "C17": ["flags", "content", "map-api", "block-iter"],
     "C18": ["dependency", "stash-deletes", "partial", "export", "block-wire", "merge"],
     "C20": ["dependency", "splice", "squash", "lookup"],
 }
